@@ -432,7 +432,14 @@ mod worker {
                 async move {
                     // Hand-off slots are taken only once the stream type is known, so a peer
                     // that stalls in the middle of the stream header cannot block other streams.
-                    let stream_h3 = match stream_quic.upgrade().await {
+                    // Stop waiting for the stream type as soon as the worker is gone, so that a
+                    // stalled peer stream does not keep the connection alive.
+                    let upgrade = tokio::select! {
+                        upgrade = stream_quic.upgrade() => upgrade,
+                        () = h3_sender.closed() => return,
+                    };
+
+                    let stream_h3 = match upgrade {
                         Ok(stream_h3) => stream_h3,
                         Err(ProtoReadError::H3(error_code)) => {
                             let _ = h3_sender.send(Err(DriverError::Proto(error_code))).await;
@@ -481,7 +488,13 @@ mod worker {
                     let mut stream_h3 = stream_quic.upgrade();
 
                     let frame = loop {
-                        match stream_h3.read_frame().await {
+                        // Stop waiting for the first frame as soon as the worker is gone.
+                        let read = tokio::select! {
+                            read = stream_h3.read_frame() => read,
+                            () = h3_sender.closed() => return,
+                        };
+
+                        match read {
                             Ok(frame) => {
                                 debug!("Frame kind: {:?}", frame.kind());
                                 if !matches!(frame.kind(), FrameKind::Exercise(_)) {
